@@ -309,6 +309,9 @@ def check_C08(ctx):
     # exhaustive: every ordered pair of core lexemes glued / separated in every way, every glued triple of a smaller core
     # (what a lexeme is may depend on its neighbours only through these)
     cases += [('pair', s) for s in gen.lex_pairs()]
+    # lexical errors and tokens far from the start: positions beyond 16 bits
+    for _ in range(ctx.n(6, 100)):
+        cases.append(('far', gen.far_prefix(ctx.rng) + gen.gen_lex_text(ctx.rng, ctx.rng.randint(1, 8))))
     srcs = [s for _, s in cases]
     r = vlib.run_rust('tok', hex_lines(srcs))
     m = vlib.run_model('tok', [vlib.cps(s) for s in srcs]) if ctx.model_ok else [None] * len(srcs)
@@ -468,6 +471,11 @@ def check_C09(ctx):
         body = gen.layout(ctx.rng, list(items[:k]) + ([part] if part else []), ctx.rng.choice(['plain', 'random']))
         tail = ctx.rng.choice(tails) if ctx.rng.random() < 0.8 else '// ' + gen.tricky_text(ctx.rng, 1, 6)
         cases.append(('truncated+tail', body.rstrip('\n') + (' ' if tail.startswith('//') else '') + tail))
+    # syntax errors far from the start: spans beyond 16 bits
+    for _ in range(ctx.n(6, 120)):
+        g = gen.gen_grammar(ctx.rng, max_nts=3)
+        items = gen.mutate_token_items(ctx.rng, gen.render_tokens(g))
+        cases.append(('far-token-mutated', gen.far_prefix(ctx.rng) + gen.layout(ctx.rng, items, 'plain')))
     srcs = [s for _, s in cases]
     r, m = run_gen_both(ctx, srcs)
     kinds = {}
@@ -513,6 +521,12 @@ def check_C10(ctx):
         kinds = gen.inject_violations(ctx.rng, g) if ctx.rng.random() < 0.8 else []
         s = gen.layout(ctx.rng, gen.render_tokens(g), ctx.rng.choice(['plain', 'random']), shuffle_items=ctx.rng.random() < 0.5)
         cases.append(('injected:' + ','.join(kinds), s, kinds))
+    # the same kind of file far from the start: every reported position beyond 16 bits
+    for _ in range(ctx.n(6, 120)):
+        g = gen.gen_grammar(ctx.rng, max_nts=4)
+        kinds = gen.inject_violations(ctx.rng, g)
+        s = gen.far_prefix(ctx.rng) + gen.layout(ctx.rng, gen.render_tokens(g), 'plain', shuffle_items=ctx.rng.random() < 0.5)
+        cases.append(('far-injected:' + ','.join(kinds), s, kinds))
     srcs = [s for _, s, _ in cases]
     r, m = run_gen_both(ctx, srcs)
     kinds_hist, inj_hist = {}, {}
@@ -772,6 +786,7 @@ def check_C13(ctx):
     for _ in range(ctx.n(200, 8000)):
         g = gen.gen_grammar(ctx.rng, max_nts=4)
         g.terminals = [(t, ty(ctx.rng.randint(0, 6))) for t, _ in g.terminals]
+        gen.relate_adjacent_types(ctx.rng, g)
         if ctx.rng.random() < 0.3:
             gen.retype_like_nonterminal(ctx.rng, g)
         cases.append(gen.render(ctx.rng, g, ctx.rng.choice(['plain', 'random'])))
@@ -806,6 +821,12 @@ def automaton_cases(ctx, n):
         cases.append(('generated', s))
     for _ in range(ctx.n(12, 200)):
         cases.append(('conflict-motif', gen.render(ctx.rng, gen.conflict_motif(ctx.rng), 'plain')))
+    # a start state of 300..700 items (beyond one byte), with and without a conflict somewhere in it
+    for _ in range(ctx.n(4, 40)):
+        cases.append(('wide-conflict', gen.render(ctx.rng, gen.wide_conflict(ctx.rng, conflict=(ctx.rng.random() < 0.75)), 'plain')))
+    # more than 256 terminals / rules / states (crate vs reference only)
+    for _ in range(ctx.n(2, 20)):
+        cases.append(('joined', gen.render(ctx.rng, gen.many_symbols_grammar(ctx.rng), 'plain')))
     # item sets of 33..70 items (crate vs reference only, like the joined grammars)
     for _ in range(ctx.n(8, 100)):
         cases.append(('joined', gen.render(ctx.rng, gen.big_state_grammar(ctx.rng), 'plain')))
@@ -853,6 +874,12 @@ def check_automaton(ctx, pid):
         hist[cls] = hist.get(cls, 0) + 1
         if parsed is None:
             res.evaluations += 1
+            # every grammar gets a verdict: a panic is neither a parser nor an error value
+            if x.startswith('Panic'):
+                if y is not None and x == y:
+                    continue
+                res.failures.append(dict(kind='panic-instead-of-a-verdict', src=s, impl=short(x, 100),
+                                         expected='a table or a TableConflict', label=label))
             continue
         nontrivial = len(parsed['states']) >= 4
         if pid == 'C11' and not parsed['conflict']:
